@@ -130,3 +130,40 @@ fn vsort_is_the_std_stable_sort() {
         }
     }
 }
+
+#[test]
+fn entry_api_agrees_with_std() {
+    // every sequence of <= 4 entry operations over 3 keys
+    let keys = [1u8, 2, 3];
+    let mut seqs: Vec<Vec<(u8, u8)>> = vec![vec![]];
+    for _ in 0..4 {
+        let mut next = Vec::new();
+        for s in &seqs { for k in keys { for op in 0..4u8 { let mut t = s.clone(); t.push((k, op)); next.push(t); } } }
+        seqs.extend(next);
+    }
+    seqs.sort(); seqs.dedup();
+    for seq in seqs.iter().filter(|s| s.len() <= 4) {
+        let mut a: shim::HashMap<u8, u32> = shim::HashMap::new();
+        let mut b: shim::BTreeMap<u8, u32> = shim::BTreeMap::new();
+        let mut r: std::collections::BTreeMap<u8, u32> = std::collections::BTreeMap::new();
+        for (k, op) in seq {
+            match op {
+                0 => { *r.entry(*k).or_insert(7) += 1; *a.entry(*k).or_insert(7) += 1; *b.entry(*k).or_insert(7) += 1; }
+                1 => { *r.entry(*k).or_default() += 2; *a.entry(*k).or_default() += 2; *b.entry(*k).or_default() += 2; }
+                2 => { r.entry(*k).and_modify(|v| *v *= 3).or_insert(1); a.entry(*k).and_modify(|v| *v *= 3).or_insert(1); b.entry(*k).and_modify(|v| *v *= 3).or_insert(1); }
+                _ => {
+                    use std::collections::btree_map::Entry as E;
+                    match r.entry(*k) { E::Occupied(o) => { o.remove(); } E::Vacant(v) => { v.insert(9); } }
+                    match a.entry(*k) { shim::hash_map::Entry::Occupied(o) => { o.remove(); } shim::hash_map::Entry::Vacant(v) => { v.insert(9); } }
+                    match b.entry(*k) { shim::btree_map::Entry::Occupied(o) => { o.remove(); } shim::btree_map::Entry::Vacant(v) => { v.insert(9); } }
+                }
+            }
+        }
+        let rv: Vec<(u8, u32)> = r.iter().map(|(k, v)| (*k, *v)).collect();
+        let bv: Vec<(u8, u32)> = b.iter().map(|(k, v)| (*k, *v)).collect();
+        let mut av: Vec<(u8, u32)> = a.iter().map(|(k, v)| (*k, *v)).collect();
+        av.sort();
+        assert_eq!(bv, rv);
+        assert_eq!(av, rv);
+    }
+}
